@@ -112,10 +112,14 @@ type subEnv struct {
 	// target check and the registration) instead of its initial walk
 	atReg  int32
 	opDone chan struct{} // writer -> stream.register hook: the held-back op has been carried out
+	over   int32         // set when the scenario has returned
 }
 
 // emit serialises emission: file order is a real-time order.
 func (e *subEnv) emit(ev trace.E) {
+	if atomic.LoadInt32(&e.over) == 1 {
+		return // the scenario is over (given up after a hang): stragglers of it must not write into the next one's trace
+	}
 	e.emu.Lock()
 	e.w.Emit(ev)
 	e.emu.Unlock()
@@ -941,7 +945,13 @@ func installSubHooks(delays bool) {
 // ---- scenario execution ----
 
 func runSubScenario(w *trace.Writer, sc subScenario) bool {
-	e := &subEnv{w: w, sc: sc, runs: map[string]*subRun{}, fed: map[string][]trace.E{}, pools: map[string]pathPool{},
+	var e *subEnv
+	defer func() {
+		if e != nil {
+			atomic.StoreInt32(&e.over, 1)
+		}
+	}()
+	e = &subEnv{w: w, sc: sc, runs: map[string]*subRun{}, fed: map[string][]trace.E{}, pools: map[string]pathPool{},
 		walk: make(chan struct{}, 1), arrive: make(chan struct{}, 1), opDone: make(chan struct{}, 1)}
 	opts := []cache.Option{}
 	if !sc.Ed {
